@@ -95,15 +95,30 @@ def generate(repo, emit, src, func_body):
     emit('string_resize_shape_ok', 'Definition string_resize_shape_ok : bool := true.   (* n > m ? memset(&val[m],0,n-m) : val[n] = 0 *)'
          if shape else None)
 
-    # --- String_Format_To (the generic branch after the last #else)
+    # --- String_Format_To (the generic branch after the last #else): two accepted shapes
+    #   old: size = vsnprintf(NULL, 0, ..); realloc(s->val, pos + size + 1); return vsprintf(s->val + pos, fmt, va);
+    #   new: size = vsnprintf(NULL, 0, ..); tmp = malloc(size + 1); vsprintf(tmp, fmt, va); realloc(..);
+    #        memcpy(s->val + pos, tmp, size + 1); free(tmp); return size;
     b = fn('String_Format_To')
     if b and '#else' in b:
         b = b[b.rfind('#else'):]
-    e = _expr(_realloc_arg(b), {'pos': 'pos', 'size': 'size'}, False) if b and _realloc_arg(b) else None
-    ok = e and re.search(r'int\s+size\s*=\s*vsnprintf\s*\(\s*NULL\s*,\s*0\s*,\s*fmt\s*,\s*va_tmp\s*\)', b) and \
-        re.search(r'return\s+vsprintf\s*\(\s*s->val\s*\+\s*pos\s*,\s*fmt\s*,\s*va\s*\)', b)
+    ra = _realloc_arg(b) if b else None
+    e = _expr(ra, {'pos': 'pos', 'size': 'size'}, False) if ra else None
+    safe = None
+    if e and re.search(r'int\s+size\s*=\s*vsnprintf\s*\(\s*NULL\s*,\s*0\s*,\s*fmt\s*,\s*va_tmp\s*\)', b):
+        if re.search(r'return\s+vsprintf\s*\(\s*s->val\s*\+\s*pos\s*,\s*fmt\s*,\s*va\s*\)', b):
+            safe = 'false'
+        else:
+            m1 = re.search(r'char\s*\*\s*tmp\s*=\s*malloc\s*\(\s*size\s*\+\s*1\s*\)\s*;', b)
+            m2 = re.search(r'vsprintf\s*\(\s*tmp\s*,\s*fmt\s*,\s*va\s*\)\s*;', b)
+            m3 = re.search(r'memcpy\s*\(\s*s->val\s*\+\s*pos\s*,\s*tmp\s*,\s*size\s*\+\s*1\s*\)\s*;\s*free\s*\(\s*tmp\s*\)\s*;\s*return\s+size\s*;', b)
+            if m1 and m2 and m3 and m1.start() < m2.start() < b.find('realloc(') < m3.start():
+                safe = 'true'
     emit('string_format_alloc', ('Definition string_format_alloc (pos size : nat) : nat := %s.   (* source: realloc(s->val, %s) *)'
-                                 % (e, _realloc_arg(b).strip())) if ok else None)
+                                 % (e, ra.strip())) if safe else None)
+    emit('string_format_self_safe', ('Definition string_format_self_safe : bool := %s.   (* %s *)'
+                                     % (safe, 'rendered into a temporary buffer before the realloc' if safe == 'true'
+                                        else 'vsprintf(s->val + pos, fmt, va) after the realloc')) if safe else None)
 
     # --- String_Rem
     b = fn('String_Rem')
